@@ -288,7 +288,44 @@ def one_case(ctx, k):
         shutil.rmtree(d, ignore_errors=True)
 
 
+def large_case(ctx, k):
+    """Several MB through two cores in chunks of more than a MiB, plain and compressed output: the same records as with one core."""
+    from . import c06
+    rng = ctx.rng("c19large", k)
+    c = c06.gen_large_case(rng, huge=True)
+    d = os.path.join(ctx.scratch, f"L{k}")
+    os.makedirs(d, exist_ok=True)
+    try:
+        inputs = climon.write_inputs(d, c["recs1"], c["recs2"])
+        total = sum(len(r[1]) * 2 + len(r[0]) + 6 for r in c["recs1"])
+        sfx = rng.choice(["", ".gz"])
+        outs = ["L1.fastq" + sfx] + (["L2.fastq" + sfx] if c["paired"] else [])
+        base = ["-a", c["opts"][1]] + (["-A", c["opts"][1].replace("ad=", "bd=")] if c["paired"] else [])
+        io = lambda t: ["-o", t + outs[0]] + (["-p", t + outs[1]] if c["paired"] else []) + inputs
+        ref = climon.run(d, base + io("r"), tag="ref", trace=False, timeout=120)
+        buf = max(1300000, total // rng.choice([5, 6, 8]))
+        var = climon.run(d, base + ["-j", str(rng.choice([2, 3])), "--buffer-size", str(buf)] + io("v"), tag="var", trace=False, timeout=180)
+        case = dict(large=True, k=k)
+        ctx.count("large_input_cases")
+        if ref.rc != 0 or var.rc != 0:
+            ctx.case(("large-failed", k))
+            ctx.violation("variant-failed", f"large input: exit {ref.rc} with one core, {var.rc} with several: {var.err.strip().splitlines()[-1][:200] if var.err.strip() else ''}", case)
+            return
+        for o in outs:
+            a, b = stream(d, "r" + o), stream(d, "v" + o)
+            ctx.case(("large", k, o, total))
+            if a != b:
+                na = len(a[1]) if a[1] else None
+                nb = len(b[1]) if b[1] else None
+                ctx.violation("records-differ", f"large input ({total} bytes, buffer {buf}): {o} holds {nb} records with several cores, {na} with one core", case, klass="large")
+    finally:
+        shutil.rmtree(d, ignore_errors=True)
+
+
 def run_shard(ctx):
+    if ctx.shard % 4 == 1 or ctx.tier == "thorough":
+        for k in range(ctx.scale(1, 6)):
+            large_case(ctx, ctx.shard * 100000 + k)
     for k in range(ctx.scale(14, 300)):
         if ctx.out_of_time():
             ctx.count("stopped_on_time_budget")
@@ -305,4 +342,7 @@ def verdict_hook(merged, tier):
 
 def replay(ctx, case):
     ctx.shard = case["k"] // 100000
+    if case.get("large"):
+        large_case(ctx, case["k"])
+        return
     one_case(ctx, case["k"])
